@@ -70,7 +70,9 @@ def gen(rng, tier, dist):
         opts = {"p_soft": 0.3 if rng.random() < 0.3 else 0.0, "p_rdep": 0.2,
                 # the inner-switch ("child/toggle") and rSelf forms of "enabled by" (save_common.gen_level;
                 # D30 / D32 fixed, D31 = cyclic metadata: notes/C12.md stage 4)
-                "p_inner": 0.4 if rng.random() < 0.3 else 0.0, "p_self": 0.4 if rng.random() < 0.25 else 0.0}
+                "p_inner": 0.4 if rng.random() < 0.3 else 0.0, "p_self": 0.4 if rng.random() < 0.25 else 0.0,
+                # rSelf(.., rEnabledBy(x)) on the root table itself
+                "p_self0": 0.5 if c % 8 == 5 else 0.0}
         if c % 12 == 11:
             app = sc.static_app()         # the macro-made application
             ref = sc.Ref(app)
